@@ -89,8 +89,16 @@ let () =
       let level = if Frag.frag0 fb then "0" else if Frag.frag1 fb then "1" else "2" in
       if fb.Flat.fl_errors_fail then "(refused " ^ level ^ ")"   (* show_errors() fails: RandomGen returns nothing *)
       else
-      let n = Stdlib.List.length (FragSem.keys_of fb) in
-      if n > mx then "(big " ^ string_of_int n ^ " " ^ level ^ ")"
+      let pk = (match Enum.make_enumerator fb with
+                | Enum.ROk en -> (try int_of_string (show_z (Enum.possible_keys fb en)) with _ -> max_int)
+                | Enum.RErr _ -> 0) in
+      let n = if pk > mx then pk else Stdlib.List.length (FragSem.keys_of fb) in
+      (* Sem.all_valid walks all level sequences of the plain factors: bound that space as well
+         (with weights it is much larger than the number of keys) *)
+      let t = float_of_int (int_of_nat fb.Flat.fl_trials) in
+      let space = Stdlib.List.fold_left (fun acc fd ->
+          acc *. (float_of_int (Stdlib.List.length fd.Flat.ff_levels) ** t)) 1.0 fb.Flat.fl_design in
+      if n > mx || space > 150000.0 then "(big " ^ string_of_int n ^ " " ^ level ^ ")"
       else "(frag " ^ string_of_int n ^ " " ^ show_bool (FragSem.check_sound fb) ^ " " ^ show_bool (FragSem.check_inj fb) ^ " "
            ^ show_bool (FragSem.check_complete fb) ^ " " ^ show_bool (FragSem.check_accepted_count fb) ^ " "
            ^ show_bool (if Frag.rejection_free fb then FragSem.check_count fb else true) ^ " "
